@@ -3,6 +3,7 @@ package namesys
 import (
 	"time"
 
+	"github.com/ipfs/boxo/ipns"
 	"github.com/ipfs/boxo/path"
 )
 
@@ -11,6 +12,18 @@ type cacheEntry struct {
 	ttl      time.Duration // is the ttl of this entry
 	lastMod  time.Time     // is the last time this entry was modified
 	cacheEOL time.Time     // is until when we keep this entry in cache
+}
+
+// resolveCacheKey returns the key under which the resolution of root, the second
+// segment of an /ipns/ path, is cached. An IPNS name can be written in several
+// ways (CIDv1 in base36 or base32, base58 peer ID): all of them share a single
+// entry keyed by the canonical string form of the name, which is also the key
+// Publish uses. Anything else (a DNSLink domain) is keyed by its /ipns/ path.
+func resolveCacheKey(root string) string {
+	if name, err := ipns.NameFromString(root); err == nil {
+		return name.String()
+	}
+	return ipns.NamespacePrefix + root
 }
 
 func (ns *namesys) cacheGet(name string) (path.Path, time.Duration, time.Time, bool) {
